@@ -17,13 +17,15 @@
 (*                                                                         *)
 (* Schemas and instances are JsonValue values (tagged tuples; objects are  *)
 (* functions, so nothing here can depend on member order).  Numbers are    *)
-(* small integers.  Strings are code-point sequences (V: "length of a      *)
-(* string is the number of its characters as defined by RFC 8259").        *)
+(* small integers <<"int", n>> and exact decimals <<"dec", m, e>> with one *)
+(* or two fraction digits (section "Numbers" below).  Strings are          *)
+(* code-point sequences (V: "length of a string is the number of its       *)
+(* characters as defined by RFC 8259").                                    *)
 (*                                                                         *)
 (* Not modelled (never generated, see notes/C11.md): format, pattern and   *)
-(* patternProperties (regular expressions), content*, non-integer numbers, *)
-(* $id that changes the base URI, non-local references, $recursiveRef /    *)
-(* $dynamicRef, $vocabulary.                                               *)
+(* patternProperties (regular expressions), content*, numbers with more    *)
+(* than two fraction digits or an exponent, $id that changes the base URI, *)
+(* non-local references, $recursiveRef / $dynamicRef, $vocabulary.         *)
 (***************************************************************************)
 EXTENDS JsonPointer, Integers, TLC
 
@@ -104,6 +106,68 @@ Until(k) ==
 Active(d, k) == Since(k) <= Rank(d) /\ Rank(d) <= Until(k)
 
 -----------------------------------------------------------------------------
+(* Numbers.  A JSON number is written either without a fraction / exponent  *)
+(* part - <<"int", n>>, the integer n - or with a fraction part of one or   *)
+(* two digits - <<"dec", m, e>>, e \in {-1, -2}, the decimal number         *)
+(* m * 10^e (<<"dec", 25, -1>> is 2.5, <<"dec", 125, -2>> is 1.25,           *)
+(* <<"dec", 20, -1>> is 2.0, <<"dec", 150, -2>> is 1.50).  The two forms     *)
+(* are different JSON TEXTS; whether they are different VALUES is stated by *)
+(* the specifications:                                                      *)
+(*  - equality (enum, const, uniqueItems): C d4 3.6 "JSON value equality",  *)
+(*    C d6 4.3 / d7, 2019-09 4.2.3 / 2020-12 4.2.2 "Instance equality": two *)
+(*    numbers are equal iff they "have the same mathematical value"         *)
+(*    (1 = 1.0 = 1.00, 1.5 = 1.50);                                         *)
+(*  - "type": "integer": C d4 3.5 "integer: JSON number without a fraction  *)
+(*    or exponent part" (1.0 is NOT an integer in Draft 4); V d6 6.25 /     *)
+(*    d7 6.1.1 / 2019-09, 2020-12 6.1.1 "integer which matches any number   *)
+(*    with a zero fractional part" (1.0 IS an integer from Draft 6 on);     *)
+(*  - minimum / maximum / exclusive*: comparison of mathematical values;    *)
+(*  - multipleOf: "valid only if division by this keyword's value results   *)
+(*    in an integer" (mathematical division).                               *)
+(* All arithmetic here is exact: Hun(x) is the value of x in hundredths     *)
+(* (both sides of every comparison are multiplied by the common             *)
+(* denominator 100), an integer of small magnitude.                         *)
+JDec(m, e) == <<"dec", m, e>>
+IsNum(v) == v[1] \in {"int", "dec"}
+Hun(x) == IF x[1] = "int" THEN 100 * x[2] ELSE IF x[3] = 0 - 1 THEN 10 * x[2] ELSE x[2]
+NumLt(a, b) == Hun(a) < Hun(b)           \* a < b   <=>  100 a < 100 b
+NumLe(a, b) == Hun(a) <= Hun(b)
+Integral(x) == x[1] = "int" \/ (Hun(x) % 100) = 0          \* zero fractional part
+\* a / b is an integer (b > 0):  (100 a) / (100 b) = a / b
+DividesExactly(a, b) == (Hun(a) % Hun(b)) = 0
+(* The number with h hundredths in its shortest spelling; Canon(v) spells    *)
+(* every number of a value that way, so that JSON value equality (same       *)
+(* mathematical value for numbers, element-wise for arrays, member-wise for  *)
+(* objects) is plain equality of the canonical forms.                        *)
+FromHun(h) == IF (h % 100) = 0 THEN <<"int", h \div 100>>
+              ELSE IF (h % 10) = 0 THEN <<"dec", h \div 10, 0 - 1>> ELSE <<"dec", h, 0 - 2>>
+RECURSIVE Canon(_)
+RECURSIVE CanonSeq(_)
+CanonSeq(q) == IF q = <<>> THEN <<>> ELSE <<Canon(Head(q))>> \o CanonSeq(Tail(q))
+Canon(v) == CASE v[1] = "dec" -> FromHun(Hun(v))
+              [] v[1] = "arr" -> <<"arr", CanonSeq(v[2])>>
+              [] v[1] = "obj" -> <<"obj", [k \in DOMAIN v[2] |-> Canon(v[2][k])]>>
+              [] OTHER -> v
+JsonEq(a, b) == Canon(a) = Canon(b)
+(* Binary floating point.  RFC 8259 section 6 lets an implementation limit   *)
+(* the precision of numbers and names IEEE 754 binary64 as the interoperable *)
+(* choice; V 4.2 "Validation of numeric instances" (every dialect) warns     *)
+(* that what an implementation can represent is bounded by its numeric data  *)
+(* types and demands no decimal arithmetic.  A validator that stores numbers *)
+(* as binary64 sees 0.1 as 0.1000000000000000055..., and whether 0.3 or 1    *)
+(* "is a multiple of" 0.1 then depends on how the division / remainder is    *)
+(* rounded.  Comparison and equality do not suffer (decimal -> nearest       *)
+(* binary64 is monotonic, and injective at these magnitudes); multipleOf     *)
+(* does.  Its verdict is representation-independent exactly when instance    *)
+(* and divisor are both exactly representable - here: multiples of 1/4       *)
+(* (x.0, x.5, x.25, x.75), whose quotient and remainder are exact too - or   *)
+(* the instance is 0.  MultipleOfExact says so; Valid itself always gives    *)
+(* the mathematical verdict, the generator declares the (instance, divisor)  *)
+(* pairs that are not MultipleOfExact don't-care.                            *)
+Dyadic(x) == (Hun(x) % 25) = 0
+MultipleOfExact(a, b) == Hun(a) = 0 \/ (Dyadic(a) /\ Dyadic(b))
+
+-----------------------------------------------------------------------------
 (* Results: status + the annotation sets needed by unevaluated*.           *)
 (*   st = "ok" | "bad" | "loop"  ("loop": the evaluation re-enters the     *)
 (*   same schema on the same instance through references.  C d6/d7 8.3.1 / *)
@@ -128,18 +192,20 @@ ConjKids(rs) == IF \E r \in rs : r.st = "loop" THEN LoopR ELSE IF \E r \in rs : 
 
 -----------------------------------------------------------------------------
 (* V 6.1.1 (all dialects) "type": primitive types; an integer is also a    *)
-(* number.                                                                 *)
-TypeIs(name, v) ==
+(* number.  Draft 4 (C d4 3.5): an integer is a number WRITTEN without a    *)
+(* fraction or exponent part; Draft 6 on (V d6 6.25, d7+ 6.1.1): any number *)
+(* with a zero fractional part.                                            *)
+TypeIs(d, name, v) ==
   CASE name = S("null") -> v[1] = "null"
     [] name = S("boolean") -> v[1] = "bool"
-    [] name = S("integer") -> v[1] = "int"
-    [] name = S("number") -> v[1] = "int"
+    [] name = S("integer") -> v[1] = "int" \/ (v[1] = "dec" /\ Rank(d) >= 6 /\ Integral(v))
+    [] name = S("number") -> IsNum(v)
     [] name = S("string") -> v[1] = "str"
     [] name = S("array") -> v[1] = "arr"
     [] name = S("object") -> v[1] = "obj"
     [] OTHER -> FALSE
-TypeOk(t, v) == IF t[1] = "str" THEN TypeIs(t[2], v)
-                ELSE \E j \in 1..Len(t[2]) : TypeIs(t[2][j][2], v)      \* array form: valid if it matches any listed type
+TypeOk(d, t, v) == IF t[1] = "str" THEN TypeIs(d, t[2], v)
+                   ELSE \E j \in 1..Len(t[2]) : TypeIs(d, t[2][j][2], v)      \* array form: valid if it matches any listed type
 SeqElems(a) == { a[j] : j \in 1..Len(a) }
 \* a schema is an object; from Draft 6 on also a boolean (C d6 4.4).  In Draft 4 the booleans allowed for
 \* additionalProperties / additionalItems are keyword values, not schemas.
@@ -199,43 +265,46 @@ ResolveRef(d, root, r) ==
 -----------------------------------------------------------------------------
 (* Assertion keywords on one instance (V section 6 of every dialect; the    *)
 (* numbers are d7's, the text is the same in all five unless noted).       *)
-Distinct(a) == \A x, y \in 1..Len(a) : x # y => a[x] # a[y]
+\* 6.4.3 uniqueItems: no two elements are equal (JSON value equality: [1, 1.0] has a duplicate)
+Distinct(a) == Cardinality({ Canon(a[j]) : j \in 1..Len(a) }) = Len(a)
 NumOk(d, f, v) ==      \* 6.2.1 multipleOf, 6.2.2-5 maximum / exclusiveMaximum / minimum / exclusiveMinimum
   LET has(k) == S(k) \in DOMAIN f
       at(k) == f[S(k)]
-      n == v[2]
-  IN v[1] = "int" =>
-     /\ has("multipleOf") => (n % at("multipleOf")[2]) = 0
+  IN IsNum(v) =>
+     /\ has("multipleOf") => DividesExactly(v, at("multipleOf"))
      /\ IF d = "d4"
         THEN \* V d4 5.1.2/5.1.3: exclusiveMaximum/Minimum are booleans modifying maximum/minimum
              /\ has("maximum") => IF has("exclusiveMaximum") /\ at("exclusiveMaximum") = JBool(TRUE)
-                                  THEN n < at("maximum")[2] ELSE n <= at("maximum")[2]
+                                  THEN NumLt(v, at("maximum")) ELSE NumLe(v, at("maximum"))
              /\ has("minimum") => IF has("exclusiveMinimum") /\ at("exclusiveMinimum") = JBool(TRUE)
-                                  THEN n > at("minimum")[2] ELSE n >= at("minimum")[2]
+                                  THEN NumLt(at("minimum"), v) ELSE NumLe(at("minimum"), v)
         ELSE \* V d6+ 6.2-6.5: four independent numeric keywords
-             /\ has("maximum") => n <= at("maximum")[2]
-             /\ has("minimum") => n >= at("minimum")[2]
-             /\ has("exclusiveMaximum") => n < at("exclusiveMaximum")[2]
-             /\ has("exclusiveMinimum") => n > at("exclusiveMinimum")[2]
+             /\ has("maximum") => NumLe(v, at("maximum"))
+             /\ has("minimum") => NumLe(at("minimum"), v)
+             /\ has("exclusiveMaximum") => NumLt(v, at("exclusiveMaximum"))
+             /\ has("exclusiveMinimum") => NumLt(at("exclusiveMinimum"), v)
+\* size bounds are non-negative integers; from Draft 6 on that includes 2.0 (a number with a zero fractional part)
+SizeLe(n, c) == 100 * n <= Hun(c)
+SizeGe(n, c) == 100 * n >= Hun(c)
 StrOk(f, v) ==         \* 6.3.1 maxLength, 6.3.2 minLength (characters, not bytes or UTF-16 units)
-  v[1] = "str" => /\ S("maxLength") \in DOMAIN f => Len(v[2]) <= f[S("maxLength")][2]
-                  /\ S("minLength") \in DOMAIN f => Len(v[2]) >= f[S("minLength")][2]
+  v[1] = "str" => /\ S("maxLength") \in DOMAIN f => SizeLe(Len(v[2]), f[S("maxLength")])
+                  /\ S("minLength") \in DOMAIN f => SizeGe(Len(v[2]), f[S("minLength")])
 ArrOk(f, v) ==         \* 6.4.1 maxItems, 6.4.2 minItems, 6.4.3 uniqueItems
-  v[1] = "arr" => /\ S("maxItems") \in DOMAIN f => Len(v[2]) <= f[S("maxItems")][2]
-                  /\ S("minItems") \in DOMAIN f => Len(v[2]) >= f[S("minItems")][2]
+  v[1] = "arr" => /\ S("maxItems") \in DOMAIN f => SizeLe(Len(v[2]), f[S("maxItems")])
+                  /\ S("minItems") \in DOMAIN f => SizeGe(Len(v[2]), f[S("minItems")])
                   /\ (S("uniqueItems") \in DOMAIN f /\ f[S("uniqueItems")] = JBool(TRUE)) => Distinct(v[2])
 ObjOk(d, f, v) ==      \* 6.5.1 maxProperties, 6.5.2 minProperties, 6.5.3 required, dependentRequired (V 2019-09 6.5.4)
   v[1] = "obj" =>
-    /\ S("maxProperties") \in DOMAIN f => Cardinality(DOMAIN v[2]) <= f[S("maxProperties")][2]
-    /\ S("minProperties") \in DOMAIN f => Cardinality(DOMAIN v[2]) >= f[S("minProperties")][2]
+    /\ S("maxProperties") \in DOMAIN f => SizeLe(Cardinality(DOMAIN v[2]), f[S("maxProperties")])
+    /\ S("minProperties") \in DOMAIN f => SizeGe(Cardinality(DOMAIN v[2]), f[S("minProperties")])
     /\ S("required") \in DOMAIN f => \A x \in SeqElems(f[S("required")][2]) : x[2] \in DOMAIN v[2]
     /\ (S("dependentRequired") \in DOMAIN f /\ Active(d, "dependentRequired")) =>
           \A k \in DOMAIN f[S("dependentRequired")][2] :
              k \in DOMAIN v[2] => \A x \in SeqElems(f[S("dependentRequired")][2][k][2]) : x[2] \in DOMAIN v[2]
-AnyOk(d, f, v) ==      \* 6.1.1 type, 6.1.2 enum, 6.1.3 const (d6+)
-  /\ S("type") \in DOMAIN f => TypeOk(f[S("type")], v)
-  /\ S("enum") \in DOMAIN f => v \in SeqElems(f[S("enum")][2])
-  /\ (S("const") \in DOMAIN f /\ Active(d, "const")) => v = f[S("const")]
+AnyOk(d, f, v) ==      \* 6.1.1 type, 6.1.2 enum ("equal to one of the elements"), 6.1.3 const (d6+; "equal to the value")
+  /\ S("type") \in DOMAIN f => TypeOk(d, f[S("type")], v)
+  /\ S("enum") \in DOMAIN f => Canon(v) \in { Canon(x) : x \in SeqElems(f[S("enum")][2]) }
+  /\ (S("const") \in DOMAIN f /\ Active(d, "const")) => JsonEq(v, f[S("const")])
 
 -----------------------------------------------------------------------------
 (* The evaluator.  Ev(d, root, s, v, seen):                                 *)
@@ -323,10 +392,10 @@ EvObject(d, root, s, v, seen) ==
       \* "contains" always pass.  C 2020-12 10.3.1.3: the matching positions are evaluated (annotation).
       cres == IF has("contains") /\ isA THEN [j \in 1..n |-> kid(at("contains"), v[2][j])] ELSE <<>>
       hits == { j \in 1..Len(cres) : cres[j].st = "ok" }
-      cmin == IF has("minContains") THEN at("minContains")[2] ELSE 1
+      cmin == IF has("minContains") THEN at("minContains") ELSE JInt(1)
       rCont == IF has("contains") /\ isA
                THEN IF \E j \in 1..Len(cres) : cres[j].st = "loop" THEN {LoopR}
-                    ELSE IF Cardinality(hits) >= cmin /\ (has("maxContains") => Cardinality(hits) <= at("maxContains")[2])
+                    ELSE IF SizeGe(Cardinality(hits), cmin) /\ (has("maxContains") => SizeLe(Cardinality(hits), at("maxContains")))
                          THEN {OkWith({}, IF d = "d2020" THEN hits ELSE {})} ELSE {FailR}
                ELSE {}
       \* ---- in-place applicators (d4 5.5.3-6 / d7 6.7 / C 2019-09 9.2.1): annotations of passing branches are kept
